@@ -26,6 +26,8 @@ mut("c02-stale-dep-id", ["C02", "C07"], [("backends/base.py", "        dependenc
 mut("c03-no-abs-norm", ["C03", "C15"], [("core.py", "        return os.path.normpath(path)\n", "        return path\n")], "the original defect: absolute paths not normalised")
 mut("c03-join-only", ["C03"], [("core.py", "    return os.path.abspath(os.path.join(working_dir, path))", "    return os.path.join(working_dir, path)")], "relative paths joined, not normalised")
 mut("c03-endpoints-deps", ["C03", "C15"], [("core.py", "        return set(self.targets.values()) - set(self.dependents.keys())", "        return set(self.targets.values()) - set(self.dependencies.keys())")], "endpoints computed from dependencies")
+mut("c03-info-pretty-unflattened", ["C03"], [("plugins/info.py", "        print_list(_flatten(target.outputs), as_filename=True)", "        print_list(target.outputs, as_filename=True)")], "original defect (42b51c9): pretty info iterates the raw outputs container")
+mut("c03-info-pretty-dependencies", ["C03"], [("plugins/info.py", "        print_list([target.name for target in graph.dependents[target]])", "        print_list([target.name for target in graph.dependencies[target]])")], "pretty info prints dependencies under Dependents")
 # ---------------------------------------------------------------- C04
 mut("c04-cycle-first-only", ["C04"], [("core.py", "    for node in nodes:\n        if state[node] == fresh:\n            visitor(node)", "    for node in list(nodes)[:1]:\n        if state[node] == fresh:\n            visitor(node)")], "cycle check only from the first target")
 mut("c04-no-back-edge", ["C04"], [("core.py", "                if state[dep] == started:\n                    raise CircularDependencyError(", "                if False:\n                    raise CircularDependencyError(")], "back edges ignored: cycles accepted")
@@ -144,6 +146,9 @@ mut("c19-wf-wd-cwd", ["C19"], [("workflow.py", "        return os.path.dirname(o
 mut("c19-namer-no-index", ["C19"], [("workflow.py", "        def string_namer(idx, target):\n            return \"{name}_{idx}\".format(name=name, idx=idx)", "        def string_namer(idx, target):\n            return \"{name}_{idx}\".format(name=name, idx=min(idx, 3))")], "string namer reuses an index")
 mut("c19-dot-default", ["C19"], [("core.py", "    options: dict = attrs.field()\n    group: str = attrs.field(default=None)\n    working_dir: str = attrs.field(default=None)", "    options: dict = attrs.field()\n    group: str = attrs.field(default=None)\n    working_dir: str = attrs.field(default=\".\")")], "original defect: template wd '.'")
 mut("c19-match-dollar", ["C19"], [("utils.py", "re.fullmatch(r\"[a-zA-Z_][a-zA-Z0-9._]*\", candidate)", "re.match(r\"^[a-zA-Z_][a-zA-Z0-9._]*$\", candidate)")], "original defect: trailing newline")
+mut("c19-glob-cwd", ["C19"], [("workflow.py", "        if not os.path.isabs(pathname):\n            pathname = os.path.join(self.working_dir, pathname)\n        return _glob(pathname, *args, **kwargs)", "        return _glob(pathname, *args, **kwargs)")], "Workflow.glob relative to the invoking directory")
+mut("c19-iglob-cwd", ["C19"], [("workflow.py", "        if not os.path.isabs(pathname):\n            pathname = os.path.join(self.working_dir, pathname)\n        return _iglob(pathname, *args, **kwargs)", "        return _iglob(os.path.abspath(pathname), *args, **kwargs)")], "Workflow.iglob relative to the invoking directory")
+mut("c19-shell-cwd", ["C19"], [("workflow.py", "            *args, shell=True, cwd=self.working_dir, **kwargs", "            *args, shell=True, **kwargs")], "Workflow.shell runs in the invoking directory")
 # ---------------------------------------------------------------- C20
 mut("c20-str-first", ["C20"], [("conf.py", "CONVERTERS = (\n    try_int,\n    try_true,\n    try_false,\n    str,\n)", "CONVERTERS = (\n    str,\n    try_int,\n    try_true,\n    try_false,\n)")], "coercion order: str first")
 mut("c20-dump-chainmap", ["C20"], [("conf.py", "json.dump(dict(self.data.maps[0]), config_file", "json.dump(dict(self.data), config_file")], "defaults written into the project file")
